@@ -75,6 +75,10 @@ def extract_model(m, inputs):
                         vals[name]["chars"] = c.as_long()
                 except Exception:
                     pass
+            elif kind == "text":
+                v = m.eval(payload, model_completion=True)
+                lst = _seq_to_list(v)
+                vals[name] = {"text": [x % 128 for x in lst] if lst is not None else None}
             elif kind == "real":
                 v = m.eval(payload, model_completion=True)
                 try:
